@@ -1,5 +1,8 @@
-CONSTANT PS = 2
+CONSTANT PS = 3
 CONSTANT MW = 2
 CONSTANT RICH = 0
+CONSTANT TPS = 2
 INIT Init
 NEXT Next
+INVARIANT Theorems
+INVARIANT Emit
